@@ -340,7 +340,7 @@ pub struct Observed {
     pub closes_all: Vec<u64>,
 }
 
-fn read_settings<T: ConnectionState>(c: &T) -> Vec<(u64, u64)> {
+pub fn read_settings<T: ConnectionState>(c: &T) -> Vec<(u64, u64)> {
     let s = c.settings();
     vec![
         (frames::SET_MAX_FIELD_SECTION, s.verif_max_field_section_size()),
